@@ -117,7 +117,7 @@ def render_manifest(sc):
             L.append("  description = %s" % st["description"])
         if st["restat"]:
             L.append("  restat = 1")
-        if st["generator"]:
+        if st["generator"] and not st.get("gen_on_build"):
             L.append("  generator = 1")
         if st["deps"] in ("gcc", "msvc"):
             L.append("  deps = %s" % st["deps"])
@@ -144,6 +144,8 @@ def render_manifest(sc):
         L.append(line)
         if st["pool"] and st["kind"] != "phony":
             L.append("  pool = %s" % st["pool"])
+        if st["generator"] and st.get("gen_on_build"):
+            L.append("  generator = 1")        # a statement-level binding shadows the rule's
         if st["dyndep"] and not st["dyndep_on_rule"]:
             L.append("  dyndep = %s" % st["dyndep"])
     if sc.get("defaults"):
@@ -203,6 +205,9 @@ def read_set(st, files):
         if follow:
             for inc in directives(files[p], "#include"):
                 rd(inc, follow)
+            for inc in directives(files[p], "#maybe"):
+                if inc in files:
+                    rd(inc, follow)
     fol = follows(st) and st["kind"] != "scan"
     for p in st["ins"] + st["iins"]:
         rd(p, fol)
